@@ -19,6 +19,32 @@ replaces the password check (seeded change C16-d moved the "already logged in" c
 import PrimaiteModel.Props.C16Admin
 namespace Primaite.Session
 
+/-! ### translator tie -/
+
+set_option maxRecDepth 8192 in
+/-- **C16, the local command path as written.** `send_local_command` hands the credentials of THIS request to
+`_process_local_login`, executes only `if local_connection`; `_process_local_login` = `local_login` then `if connection_uuid` (a
+connection is created only from a successful login); `Node.local_login`, `UserSessionManager.local_login` and `Terminal.login`
+delegate without a check of their own; inside `_login`, `authenticate_user` is called and `if not user: return None` comes BEFORE the
+first read of `self.local_session` (model: `localLogin` tests `loginOk` first; the class of seeded change C16-d), and `_login` returns
+nothing but `None` or `session_id`. -/
+theorem C16_gen_local_path :
+    Gen.Session.localCommandHandler =
+      ["command: str = request[2]['command']",
+       "local_connection = self._process_local_login(username=request[0], password=request[1])",
+       "if local_connection: outcome = local_connection.execute(command); if outcome: return RequestResponse(status='success', data={'reason': outcome})"] ∧
+    Gen.Session.processLocalLogin =
+      ["connection_uuid = self.parent.user_session_manager.local_login(username=username, password=password)",
+       "if connection_uuid: return self._create_local_connection(connection_uuid=connection_uuid, session_id='Local_Connection') else: return None"] ∧
+    Gen.Session.nodeLocalLogin = ["return self.user_session_manager.local_login(username, password)"] ∧
+    Gen.Session.usmLocalLogin = ["return self._login(username=username, password=password, local=True)"] ∧
+    Gen.Session.terminalLogin =
+      ["if self.operating_state != ServiceOperatingState.RUNNING: return None",
+       "if ip_address: return self._send_remote_login(username=username, password=password, ip_address=ip_address) else: return self._process_local_login(username=username, password=password)"] ∧
+    Gen.Session.loginAuthenticatesBeforeLookingAtTheLocalSession = true ∧
+    Gen.Session.loginReturnValues = ["None", "session_id"] := by
+  decide
+
 /-! ### refused without the current credentials, in every state -/
 
 theorem localLogin_refused {n : Net} {y : Nat} {u p : String} {b : Node} (hb : n.node y = some b) (h : ¬ AuthOK b u p) :
